@@ -317,3 +317,16 @@ Qed.
 Example fp_labels_with_identity :
   fp_labels nat (fun i => 1000 + i)%nat 2 3 true [false; true; false] (Some [7; 8; 9]%nat) = Some (Some [8; 7; 9; 1003]%nat).
 Proof. reflexivity. Qed.
+
+(* the oracle hypothesis is satisfiable: d = 2, one supplied element with coefficient row e_1, null space e_0, e_2, e_3 *)
+Definition exA : list (list Cx) := [[0c; 1c; 0c; 0c]].
+Definition exN : list (list Cx) := [[1c; 0c; 0c; 0c]; [0c; 0c; 1c; 0c]; [0c; 0c; 0c; 1c]].
+Example rows_orthonormal_sat : rows_orthonormal (2 * 2) (Wf (exA ++ exN)) (length (exA ++ exN)).
+Proof.
+  intros i k Hi Hk. simpl in Hi, Hk.
+  destruct i as [|[|[|[|i]]]]; try lia; destruct k as [|[|[|[|k]]]]; try lia;
+    unfold Wf, exA, exN, delta; simpl; apply c_eq; simpl; ring.
+Qed.
+Example from_partial_onb_full_sat :
+  hs_orthonormal 2 4 (fun i => toF (nth i (fp_basis_raw RO 2 false exA exN) [])).
+Proof. apply (from_partial_onb_full 2 ltac:(lia) exA exN). discriminate. apply rows_orthonormal_sat. Qed.
